@@ -141,20 +141,24 @@ class RandomFair(Policy):
 
 
 class RoundRobin(Policy):
+    """Fair rotation by actor index with a quantum; the rotation position survives actors that
+    block or finish (otherwise a spinner with a low index starves the others)."""
+
     def __init__(self, quantum: int = 1) -> None:
         self.quantum = quantum
         self.left = quantum
+        self.last_idx = -1
 
     def choose(self, enabled, current, step):
         if current is not None and current in enabled and self.left > 0:
             self.left -= 1
             return current
         self.left = self.quantum
-        if current is None:
-            return enabled[0]
         for a in enabled:
-            if a.idx > current.idx:
+            if a.idx > self.last_idx:
+                self.last_idx = a.idx
                 return a
+        self.last_idx = enabled[0].idx
         return enabled[0]
 
 
@@ -334,7 +338,11 @@ class Scheduler:
             self.failure = Budget(f"step budget {self.max_steps} exhausted")
             return None
         if self.progress is not None and self.step % self.progress_every == 0 and self.step:
-            p = self.progress()
+            self.no_yield += 1  # the read-out runs pynenc code: it must not reach a yield point
+            try:
+                p = self.progress()
+            finally:
+                self.no_yield -= 1
             if p == self._last_progress:
                 self._stalled += 1
                 if self._stalled >= self.stall_rounds:
